@@ -38,7 +38,11 @@ pub fn gen_op(
 
         Node::Real { .. } => gen_primitive(ast, FLOAT, env, constr),
         Node::Int { .. } => gen_primitive(ast, INT, env, constr),
-        Node::ENum { .. } => gen_primitive(ast, INT, env, constr),
+        Node::ENum { num, .. } => {
+            // a mantissa with a fraction is a float in the output: (1.5 * 10 ** 3)
+            let ty = if num.contains('.') { FLOAT } else { INT };
+            gen_primitive(ast, ty, env, constr)
+        }
         Node::Str { expressions, .. } => {
             gen_vec(expressions, env, false, ctx, constr)?;
             for expr in expressions {
